@@ -54,6 +54,7 @@ def run(ctx, rep):
     tv = ix.cls(TRACE_VISITOR)
     from .common import check_zero_trip
     check_zero_trip(ctx, rep, "C08.4", ("jaqalpaq.emulator.pygsti", "jaqalpaq.ipc"))
+    discover_guards(ctx, rep)
     rep.assume("termination and visit order of the trace walker are not decided (DESIGN section 5)")
 
     # ------------------------------------------------------------ C08.1
@@ -139,7 +140,74 @@ def run(ctx, rep):
             rep.violation("C08.3", cons, "the loop handler does not repeat the body loop.iterations times with the walk state restored at each iteration", vl.loc())
 
     # ------------------------------------------------------------ C08.5
-    rep.rule("C08.5", "a loop that runs zero times skips exactly the traces that start inside it: the trace index is advanced only while the next objective has the loop's address as a prefix", floor=1)
+    rep.rule("C08.5", "the walker decides 'the next trace lies inside this node' by comparing its WHOLE address with the prefix of the objective of the same length (block handler and zero-count loop branch alike)", floor=2)
+
+    def resolve_local(fn, e, depth=0):
+        """Follow single-assignment local names (depth = len(address))."""
+        if isinstance(e, ast.Name) and depth < 4:
+            defs = [st.value for st in iter_stmts(fn.body) if isinstance(st, ast.Assign) and any(isinstance(t, ast.Name) and t.id == e.id for t in st.targets)]
+            if len(defs) == 1:
+                return resolve_local(fn, defs[0], depth + 1)
+        return e
+
+    def is_address(fn, e):
+        e = resolve_local(fn, e)
+        return (isinstance(e, ast.Attribute) and e.attr == "address") or (isinstance(e, ast.Name) and e.id == "address") or (
+            isinstance(e, ast.Subscript) and isinstance(e.slice, ast.Slice) and e.slice.lower is None and e.slice.upper is None and is_address(fn, e.value))
+
+    def mentions(e, attr):
+        return any((isinstance(m, ast.Attribute) and m.attr == attr) or (isinstance(m, ast.Name) and m.id == attr) for m in ast.walk(e))
+
+    def prefix_test(fn, c):
+        """'ok' | 'partial: why' | None for a Compare node."""
+        if not (isinstance(c, ast.Compare) and len(c.ops) == 1 and isinstance(c.ops[0], (ast.Eq, ast.NotEq))):
+            return None
+        sides = [c.left, c.comparators[0]]
+        obj = [x for x in sides if mentions(resolve_local(fn, x), "objective")]
+        adr = [x for x in sides if x not in obj and mentions(resolve_local(fn, x), "address")]
+        if len(obj) != 1 or len(adr) != 1:
+            return None
+        o, a = resolve_local(fn, obj[0]), adr[0]
+
+        def numeric(e):
+            e = resolve_local(fn, e)
+            return isinstance(e, (ast.BinOp, ast.Constant)) or (isinstance(e, ast.Call) and isinstance(e.func, ast.Name) and e.func.id == "len")
+        if numeric(o) or numeric(a):
+            return None  # a comparison of lengths, not of addresses
+        if not is_address(fn, a):
+            return f"partial: the address side is `{ast.unparse(a)}`, not the whole address"
+        if not (isinstance(o, ast.Subscript) and isinstance(o.slice, ast.Slice)):
+            return f"partial: the objective side is `{ast.unparse(o)}`, not a prefix slice"
+        sl = o.slice
+        up = resolve_local(fn, sl.upper) if sl.upper is not None else None
+        ok_up = isinstance(up, ast.Call) and isinstance(up.func, ast.Name) and up.func.id == "len" and up.args and is_address(fn, up.args[0])
+        if sl.lower is not None or sl.step is not None or not ok_up:
+            return f"partial: the objective is sliced `{ast.unparse(o)}`, which is not its prefix of the address's length"
+        return "ok"
+
+    vb5 = tv.methods.get("visit_BlockStatement")
+    sites = []
+    for fn in (vb5, vl):
+        if fn is None:
+            continue
+        for n in walk_no_nested(fn.node):
+            r = prefix_test(fn, n)
+            if r is not None and not isinstance(fl_parent_assert(fn, n), ast.Assert):
+                sites.append((fn, n, r))
+    for fn in (vb5, vl):
+        if fn is None:
+            continue
+        cons = construct_of(fn, "inside-test")
+        mine = [(n, r) for f_, n, r in sites if f_ is fn]
+        if not mine:
+            rep.undecided("C08.5", cons, "no comparison between the walker's address and the objective recognised", fn.loc())
+            continue
+        bad = [(n, r) for n, r in mine if r != "ok"]
+        if bad:
+            n, r = bad[0]
+            rep.violation("C08.5", cons, f"`{ast.unparse(n)}`: {r[9:]}; two nests of the same shape (or a trace one level deeper) are confused: readouts are attributed to the wrong subcircuit, or a zero-count loop never ends", f"{fn.path}:{n.lineno}")
+        else:
+            rep.ok("C08.5", cons, f"`{ast.unparse(mine[0][0])}`", f"{fn.path}:{mine[0][0].lineno}")
     if vl is not None:
         fl = FuncFlow(ix, T, vl)
         incs = [st for st in iter_stmts(vl.body) if isinstance(st, ast.AugAssign) and isinstance(st.target, ast.Attribute) and st.target.attr == "index"]
@@ -148,14 +216,55 @@ def run(ctx, rep):
             rep.undecided("C08.5", cons, "the loop handler never advances the trace index itself (zero-trip loops must be handled elsewhere; see C08.4)", vl.loc())
         for st in incs:
             tests = fl.control_tests(st)
-            prefix = any(
-                isinstance(c, ast.Compare) and any(isinstance(x, ast.Subscript) and isinstance(x.slice, ast.Slice) and any(isinstance(m, ast.Attribute) and m.attr == "objective" for m in ast.walk(x)) for x in [c.left] + c.comparators)
-                and any("address" in ast.unparse(x) for x in [c.left] + c.comparators)
-                for t in tests for c in ast.walk(t))
+            prefix = any(prefix_test(vl, c) is not None for t in tests for c in ast.walk(t))
             count_test = any(any(isinstance(m, ast.Attribute) and m.attr == "iterations" for m in ast.walk(t)) for t in tests)
             if prefix and count_test:
-                rep.ok("C08.5", cons, "advanced under `objective[:len(address)] == address`, in the zero-count branch only", f"{vl.path}:{st.lineno}")
+                rep.ok("C08.5", cons, "advanced under the inside-test, in the zero-count branch only", f"{vl.path}:{st.lineno}")
             elif not count_test:
                 rep.violation("C08.5", cons, "the loop handler advances the trace index outside a test of the loop count: traces are skipped although the body runs", f"{vl.path}:{st.lineno}")
             else:
                 rep.violation("C08.5", cons, "a zero-count loop advances the trace index without testing that the next objective lies inside the loop: traces after the loop are skipped too and get no readout", f"{vl.path}:{st.lineno}")
+
+
+def fl_parent_assert(fn, node):
+    """The Assert statement containing node, if any (assert-only comparisons are diagnostics, not decisions)."""
+    for st in iter_stmts(fn.body):
+        if isinstance(st, ast.Assert) and any(x is node for x in ast.walk(st)):
+            return st
+    return None
+
+
+def discover_guards(ctx, rep):
+    """C08.6: the traces DiscoverSubcircuits hands to the walker correspond to visits only if a trace neither ends
+    nor starts half-way inside a body that is not executed exactly once."""
+    ix, T = ctx.ix, ctx.typer
+    rep.rule("C08.6", "subcircuit discovery rejects a trace that is closed, or left open, inside a loop body that does not run exactly once (count 0 included)", floor=2)
+    f = ix.functions.get("jaqalpaq.core.algorithm.walkers.DiscoverSubcircuits.visit_BlockStatement")
+    if f is None:
+        raise AnalysisError("C08.6: DiscoverSubcircuits.visit_BlockStatement vanished")
+    cfg = CFG(f.body)
+    guards = []
+    for st in iter_stmts(f.body):
+        if isinstance(st, ast.If) and cfg.branch_never_returns(cfg.node(st), True):
+            guards.append(st)
+    reps_cmp = []
+    for g in guards:
+        for c in ast.walk(g.test):
+            if isinstance(c, ast.Compare) and len(c.ops) == 1 and any(isinstance(x, ast.Name) and x.id == "reps" for x in [c.left] + c.comparators):
+                reps_cmp.append((g, c))
+    cons = construct_of(f, "repetition-test")
+    if not reps_cmp:
+        rep.violation("C08.6", cons, "no raising guard depends on the repetition count of the enclosing loop", f.loc())
+    else:
+        bad = [(g, c) for g, c in reps_cmp if not (isinstance(c.ops[0], ast.NotEq) and any(isinstance(x, ast.Constant) and x.value == 1 for x in [c.left] + c.comparators))]
+        if bad:
+            g, c = bad[0]
+            rep.violation("C08.6", cons, f"`{ast.unparse(c)}` lets a body that runs zero times through: `prepare_all; Px q[0]; loop 0 {{ measure_all }}` still yields a readout although nothing is measured", f"{f.path}:{g.lineno}", witness="prepare_all\nPx q[0]\nloop 0 { measure_all }")
+        else:
+            rep.ok("C08.6", cons, "every repetition test is `reps != 1`", f.loc())
+    cons = construct_of(f, "open-trace-left-by-loop")
+    opened = [g for g, c in reps_cmp if any(isinstance(m, ast.Attribute) and m.attr == "current" for m in ast.walk(g.test)) and any(isinstance(m, ast.Compare) and isinstance(m.ops[0], (ast.Is, ast.IsNot)) and not any(isinstance(k, ast.Constant) and k.value is None for k in m.comparators) for m in ast.walk(g.test))]
+    if opened:
+        rep.ok("C08.6", cons, f"`{ast.unparse(opened[0].test)[:90]}` raises", f"{f.path}:{opened[0].lineno}")
+    else:
+        rep.violation("C08.6", cons, "a trace opened inside a repeated (or zero-count) body and still open at its end is accepted: `loop 3 { prepare_all; Px q[0] }; measure_all` produces three readouts for one measurement", f.loc(), witness="loop 3 { prepare_all ; Px q[0] }\nmeasure_all")
